@@ -749,6 +749,9 @@ func main() {
 			r.Set("decode_accepted_by_single_mutation", singles(accBySig))
 			r.Set("session_quota_per_mutation_signature", map[string]int{"single": quotaSingle, "pair": quotaPair})
 		}
+		for i := 0; i < len(cases) && i < 300; i += 97 {
+			r.Sample(cases[i])
+		}
 		batch.Drive(r, batch.Config{Name: "c19", PerChild: 120, Workers: 1, Lanes: 8, FatalNotViolation: true}, cases, nil)
 		if _, ok := r.Replaying(); !ok {
 			r.Require("sessions", 300)
